@@ -1,4 +1,36 @@
-/* White-box unit for crypto/crypto_aesctr.c (C03): dispatch variable and struct crypto_aesctr. */
+/* White-box unit for crypto/crypto_aesctr.c (C03): dispatch variable and struct crypto_aesctr.
+ * With -DHC_BLACKBOX (notes/blackbox.md) crypto_aesctr.c is a separate unit: its dispatch follows the public
+ * crypto_aes_can_use_intrinsics(), which is what is reported; no view of struct crypto_aesctr (h_cpu.c does not
+ * print the L2 part of `ctr` in that mode). */
+#ifdef HC_BLACKBOX
+#include "crypto_aes.h"
+#include "h_cpu.h"
+
+const char *
+hcpu_ctr_path(void)
+{
+
+	switch (crypto_aes_can_use_intrinsics()) {
+	case 0:
+		return ("software");
+	case 1:
+		return ("aesni");
+	case 2:
+		return ("arm");
+	}
+	return ("?");
+}
+
+void
+hcpu_ctr_reset(void)
+{
+}
+
+void
+hcpu_ctr_force(void)
+{
+}
+#else
 #include <string.h>
 #include "crypto_aesctr.c"
 #include "h_cpu.h"
@@ -54,3 +86,4 @@ hcpu_ctr_state(const struct crypto_aesctr * s, uint64_t * bytectr, uint8_t pblk[
 	memcpy(pblk, s->pblk, 16);
 	memcpy(buf, s->buf, 16);
 }
+#endif /* !HC_BLACKBOX */
